@@ -86,6 +86,29 @@ CLAIMED = {
              'double-precision re-derivation to 5e-10 relative.',
         technique='path-sensitive abstract interpretation + name-derived oracle; generated-table validation against data files',
     ),
+    'C07': dict(
+        category='other',
+        text='Structural induction over the formula: the bodies of the symbol loop and of the group loop of '
+             'CompoundParserSimple are analysed as fragments (locals unconstrained on entry); on each of the ~125 abstract '
+             'paths that complete an iteration the symbol was found in the sorted element table (bsearch over all MENDEL_MAX '
+             'entries), the count is 1 or strtod of the complete digit/dot run after the symbol / closing bracket (scan and '
+             'substring offsets agree, converted to its end, non-zero), a group is a successful recursive call on exactly the '
+             'text between its brackets into a fresh empty list, and the merge is one of first / new (bsearch over all '
+             'entries == NULL, vector grown by one, appended, re-sorted with the same comparator) / existing (count added) - '
+             'for a group for every entry j in [0, n) with count_j x multiplier, or adoption of the whole list with every '
+             'count scaled; comparators ascend by Z; CompoundParser: nElements, vector sizes, per-iteration snapshots give '
+             'nAtomsAll = sum n_i, molarMass = sum A_i n_i (A_i non-zero), Elements[i], nAtoms[i], massFractions[i] = '
+             'A_i n_i / molarMass with molarMass > 0; elements without weight end in NULL with the error; locale '
+             'save-set-restore bracket encloses the only strtod user; add_compound_data: each operand travels with its own '
+             'weight on both branches, result starts as the longer list, elements of the shorter one appended iff absent, '
+             'sorted with compareInt, fractions start at 0 and accumulate f_j x w of the same operand under element equality.',
+        design_ref='DESIGN.md section 2, C07',
+        note='Not decided: the accepted language of the character scanner (which malformed strings are rejected) and '
+             'floating-point rounding. Invariance under reordering / group expansion follows from the merge rules (addition of '
+             'counts is commutative; a group contributes count x multiplier) and is not separately decided. Fixed on this '
+             'tree: locale restore (F6), elements without atomic weight (F16).',
+        technique='path-sensitive abstract interpretation of statement fragments with loop snapshots; sibling-branch agreement',
+    ),
     'C08': dict(
         category='other',
         text='Static term-by-term comparison of the cascade implementation with the model stated in the property: the 32 '
